@@ -19,4 +19,10 @@ TEXT = {
         "note": "Oracle = strict reference decoder (refwire) applied to exactly the bytes and trailers delivered; hangs are decided by a synctest bubble (deadlock ⇒ failure), not by wall-clock timeouts. Unary Connect bodies cut with a clean EOF are a different complete body and are not asserted.",
         "technique": "property-based testing (rapid) with enumerated fault positions: differential against a strict reference decoder, prefix rule, coded-error rule, bubble deadlock detection",
     },
+    "C02": {
+        "text": "Exploration: generated handler errors (16 codes or plain Go errors; UTF-8 messages built to hit escaping and whitespace edge cases; 0..3 details; metadata multimaps incl. -Bin keys; k messages already sent; raised by the handler or by an interceptor) across 3 protocols × 2 codecs × 4 kinds × {in-memory, HTTP/1.1, h2c}; the client-side error must equal the handler-side error field by field, must never be success, and the raw response must decode to the same error with the independent reference decoder.",
+        "design_ref": "DESIGN.md §5 C02",
+        "note": "Grey zones not asserted: invalid UTF-8, Any of unlinked types, errors that merely wrap *connect.Error, codes outside 1..16. Trusted: protobuf library for detail equality, refwire for the raw-bytes clause.",
+        "technique": "property-based testing (rapid): reference-model comparison handler error == client error, plus differential decode of the raw exchange with an independent codec",
+    },
 }
